@@ -1059,6 +1059,82 @@ def rule_numeric_hash(rep: Report, ix, km: ck.KeyModel, ka: ck.KeyAnalysis, fact
 # =====================================================================================
 # the check
 # =====================================================================================
+
+# ----------------------------------------------------------------------------
+# (g) cached results must not be objects with a public mutation interface
+# ----------------------------------------------------------------------------
+MUTATORS = {"__setitem__", "__delitem__", "__iadd__", "__isub__", "__imul__", "__itruediv__", "__ipow__"}
+
+
+def _mutation_interface(c) -> list[str]:
+    """public ways of changing an instance of the class in place: item assignment, in-place
+    operators, property setters (public names)"""
+    out = []
+    for k in c.mro():
+        for name, defs in k.methods.items():
+            if name in MUTATORS:
+                out.append(f"{k.name}.{name}")
+            for f in defs:
+                if any(d.endswith(".setter") for d in f.decorator_names) and not name.startswith("_"):
+                    out.append(f"{k.name}.{name} (setter)")
+    return sorted(set(out))
+
+
+def rule_cached_mutable_result(rep: Report, ix, sites) -> None:
+    """The cache hands the *same* object to every caller with an equal key.  If that object is
+    an instance of a repository class with a public mutation interface (e.g. BoundariesList:
+    `bcs["left"] = ...`, `.value = ...`), a caller that customises what it received changes
+    what every later caller gets for the same request: results depend on history."""
+    n = 0
+    for site in sites:
+        f = site.func
+        classes = {}
+        names = set()
+        if f.node.returns is not None:
+            for x in ast.walk(f.node.returns):
+                if isinstance(x, ast.Name):
+                    names.add(x.id)
+                elif isinstance(x, ast.Constant) and isinstance(x.value, str):
+                    try:
+                        for y in ast.walk(ast.parse(x.value, mode="eval")):
+                            if isinstance(y, ast.Name):
+                                names.add(y.id)
+                    except SyntaxError:
+                        pass
+        # classes constructed in return statements: `return Cls(...)` / `return Cls.from_x(...)`
+        for r in ast.walk(f.node):
+            if isinstance(r, ast.Return) and isinstance(r.value, ast.Call):
+                fn = r.value.func
+                if isinstance(fn, ast.Name):
+                    names.add(fn.id)
+                elif isinstance(fn, ast.Attribute) and isinstance(fn.value, ast.Name):
+                    names.add(fn.value.id)
+        for nm in names:
+            c = ix.resolve_class(f.module, nm)
+            if c is None:
+                # names imported under TYPE_CHECKING only
+                cands = [k for k in ix.all_classes() if k.name == nm]
+                c = cands[0] if len(cands) == 1 else None
+            if c is not None:
+                classes[c.name] = c
+                # an annotation names an upper bound: any subclass may be what is returned
+                for sub in ix.subclasses(c, strict=True):
+                    classes.setdefault(sub.name, sub)
+        n += 1
+        bad = {nm: _mutation_interface(c) for nm, c in classes.items()}
+        bad = {k: v for k, v in bad.items() if v}
+        rep.oblige(f"cached-result-immutable:{ck.display_name(f)}", not bad, {"result classes": sorted(classes), "mutation interface": bad})
+        for nm, how in bad.items():
+            rep.violation(
+                "C04.cached-mutable-result",
+                f"{site.ref}::returns={nm}",
+                f"`{ck.display_name(f)}` is cached but returns a `{nm}`, which callers can change in place ({', '.join(how[:4])}): the one cached instance is shared by every later "
+                "caller with an equal key, so a caller that customises the object it got changes the result of later, unrelated requests",
+                line=f.node.lineno,
+            )
+    rep.floor("cached sites whose result type was inspected", n, FLOOR_SITES)
+
+
 def check(tier: str) -> Report:
     rep = Report("C04", tier, "other", "cache-key composition read from tools/cache.py + class index; interprocedural address-capture tracking; re-bind/invalidation rule")
     rep.explanation = (
@@ -1161,6 +1237,7 @@ def check(tier: str) -> Report:
     rule_cached_state(rep, ix, km, sites, facts, ck.StateFacts(ix, facts))
     rule_shared_containers(rep, ix, facts)
     rule_numeric_hash(rep, ix, km, ka, facts, site_atoms)
+    rule_cached_mutable_result(rep, ix, sites)
 
     rep.assumptions += [
         "annotations describe the argument types (values smuggled through Any/**kwargs are listed as unclassified notes)",
